@@ -334,6 +334,12 @@ def install_peewee():
     C.stub(peewee, "int", class_stub(int, S.sym_int))
     C.stub(PW, "json", JSON)
     C.stub(PW, "float", sym_float)
+    import decimal as _dec
+
+    if "Decimal" in PW.__dict__:
+        C.stub(PW, "Decimal", class_stub(_dec.Decimal))
+    if "decimal" in PW.__dict__:
+        C.stub(PW, "decimal", DecimalStub())
     C.stub(PW, "get_data_dir", lambda name=None: "/stub/data")
     import iso8601
     from symex import sstr
